@@ -177,6 +177,12 @@ def gen_cases(ctx: Ctx) -> List[Dict[str, Any]]:
             sc["damp"] = 20.0
         sc["run_kwargs"] = rk
         cases.append({"sc": sc, "crashes": [dict(step=int(rng.integers(3, 7)), upto=int(rng.integers(0, 8)), hard=bool(rng.integers(0, 2)))]})
+    # re-parameterised runs (learned parameters given as tensors): the resumed run must use the same parameters
+    lcases = [({"U_ss": 1.02}, "basic", ("h2o",)), ({"zeta_s": 1.03, "beta_s": 0.98}, "xl", ("h2o", "h2"))]
+    for i, (lp, eng, mols) in enumerate(lcases if ctx.thorough else [lcases[ctx.seed % 2]]):
+        sc = sc_(dict(data=1, coordinates=1, velocities=0, forces=0, xyz=0, print=0, ckpt=2), 5, engine=eng, stub=False, mols=mols, k=4)
+        sc["learned"] = lp
+        cases.append({"sc": sc, "crashes": [dict(step=4, upto=int(rng.integers(0, 7)), hard=False)]})
     # real engine on molecules whose state is more than (species, coordinates, velocities): ions (total charge), a batch with mixed charges
     ions = [(("oh-",), [-1]), (("h2o",), [2]), (("nh4+", "h2o"), [1, 0]), (("oh-", "h2"), [-1, 0])]
     for i, (mols, ch) in enumerate(ions if ctx.thorough else [ions[ctx.seed % 2], ions[2 + ctx.seed % 2]]):
